@@ -12,8 +12,9 @@ CFG = "FfiTrace.cfg"
 # ------------------------------------------------------------------ C18: write results
 def gen_write_results(rng, thorough=False):
     idxs = [0, 100, 1, 2, 3, 4, 5, 6, 8, 10, 11, 7, 9, 12, 13, 127, 128, 200, 254, 255, 256, 257, 300, 511, 1000, 65535]
+    idxs += [30000 + k for k in (0, 1, 2, 3, 4, 6, 7, 11, 200, 255)]        # success with the other members set
     if thorough:
-        idxs = sorted(set(idxs + list(range(0, 256)) + [256 + i for i in range(0, 256, 7)]))
+        idxs = sorted(set(idxs + list(range(0, 256)) + [256 + i for i in range(0, 256, 7)] + list(range(30000, 30256))))
     steps = []
     for i in idxs:
         steps.append({"pdu": req_wsc(i, rng.random() < 0.5)})
